@@ -174,6 +174,10 @@ func chain(c *kit.Ctx, id string, i int) {
 			ext := map[string]interface{}{"block": n, "evidence_kind": ec.name, "evidence": ec.data, "accused_before": before.asString, "accused_after": after.asString,
 				"penalty_account_delta": penDelta.String(), "slashdata_len": len(res.Block.Header().SlashData)}
 			switch {
+			case changed && len(res.Block.Header().SlashData) == 0:
+				// the builder acted on the evidence but left nothing for importers to replay (the
+				// listed zero-penalty divergence of C06): the importer will reject this block
+				viol("evidence-applied-by-builder-but-absent-from-slashdata", fmt.Sprintf("block %d: the builder changed the accused (%s -> %s) for evidence %s but header.SlashData is empty", n, before.asString, after.asString, ec.name), ext)
 			case ec.honest && changed:
 				viol("honest-validator-slashable:"+ec.name, fmt.Sprintf("block %d: evidence assembled only from votes an honest validator emits (%s) was accepted: %s -> %s, penalty account +%v", n, ec.name, before.asString, after.asString, penDelta), ext)
 			case !ec.honest && !ec.genuine && changed:
@@ -338,6 +342,9 @@ func makeEvidence(run *chaingen.Run, st *state.StateDB, round uint64, proposer c
 		other := (idx + 1) % vs.Len()
 		ec = mk("wrong-signer-index", false, false, vtPrevote, si(A, sign(A, round, ri)), si(B, sign(B, round, ri)))
 		ec.data.SignerIdx = uint32(other)
+		if r.Intn(3) == 0 {
+			ec.copies = 2
+		}
 		ov, _ := vs.GetByIndex(other)
 		if ov != nil {
 			// the accused by index is `other`, who signed nothing: it must stay untouched
@@ -370,6 +377,11 @@ func makeEvidence(run *chaingen.Run, st *state.StateDB, round uint64, proposer c
 		if r.Intn(5) == 0 {
 			ec.data.Signs = append(ec.data.Signs, si(C, sign(C, round, ri)))
 		}
+	}
+	// any evidence may reach the proposer's pool more than once (gossip); a second sighting must be
+	// judged like the first
+	if ec.copies == 1 && r.Intn(3) == 0 {
+		ec.copies = 2 + r.Intn(2)
 	}
 	return ec, target
 }
